@@ -531,6 +531,7 @@ def check(model, rep):
     r054(model, rep, ck)
     r0516(model, rep, ck)
     r0517(model, rep, ck)
+    r0518(model, rep, ck)
     r055(model, rep, ck)
     r056(model, rep, ck)
     r057(model, rep, ck)
@@ -781,3 +782,14 @@ def r0510(model, rep, ck):
                '(re-oriented about its own origin) stays in place - FK, getEEPos and the body Jacobian keep describing the custom tool after the restore'
                % (' and '.join(conds) or 'no condition'), line=pth.ret_line)
     rep.floor('R05.15', 'paths of restoreOriginalEE', n15, 1)
+
+
+def r0518(model, rep, ck):
+    """Memo coherence over the forward-kinematics queries of the arm (rule function shared with R08.7 / R06.8 / R11.9)."""
+    from . import memocoh
+    rep.rule('R05.18', 'FK / FKLink / FKJoint / getEEPos / getJointTransforms keep nothing between calls that a configuration setter can outdate: every method that '
+             'writes a field a kept value was computed from also discards the kept value')
+    allm = memocoh.all_methods(ck.arm)
+    q = [fi for n, fi in sorted(allm.items()) if n in ('FK', 'FKLink', 'FKJoint', 'getEEPos', 'getJointTransforms')]
+    memocoh.check(rep, 'R05.18', ck.arm, q, 'poses of an arm whose screws, home pose or base were changed since')
+    rep.floor('R05.18', 'forward-kinematics queries scanned', len(q), 4)
